@@ -75,6 +75,8 @@ def execute(c):
         why = c["why"]
         if why == "subpixel":
             b = _gbox(c["base"], c["b"], sub=c["sub"])
+        elif why == "subpixel_far":
+            b = _gbox(c["base"], c["b"], sub=(c["sub"][0] / 64, c["sub"][1] / 64))      # 1/1024 pixel units
         elif why == "pixelsize":
             b = _gbox(c["base"], c["b"], scale=2)
         elif why == "orientation":
